@@ -13,6 +13,7 @@ import (
 	"github.com/f1bonacc1/process-compose/src/loader"
 	"github.com/f1bonacc1/process-compose/src/types"
 	"github.com/rs/zerolog"
+	"github.com/rs/zerolog/log"
 	"pgregory.net/rapid"
 
 	"verif/harness/pbt"
@@ -20,7 +21,7 @@ import (
 	"verif/harness/world"
 )
 
-func init() { zerolog.SetGlobalLevel(zerolog.Disabled) }
+func init() { log.Logger = zerolog.Nop() }
 
 var caseDir string
 
